@@ -41,8 +41,21 @@ def scope_of(*roots):
 
 
 def scoped(rule, name, *roots):
+    """quick: the rule over the functions reachable from the property's own entry points; thorough: over the whole package
+    (a superset: a construct the rule forbids is forbidden everywhere, the scope only keeps the quick report focused)"""
     def run(prog, rep, tier):
-        return rule(prog, rep, tier, scope=scope_of(*roots)(prog))
+        return rule(prog, rep, tier, scope=None if tier == "thorough" else scope_of(*roots)(prog))
+    run.__name__ = name
+    return run
+
+
+def coord(name, *anchors):
+    """COORD over the regions of the anchors (quick) or over every function of the package (thorough)"""
+    def run(prog, rep, tier):
+        import ast as _ast
+        if tier == "thorough":
+            return CO.rule_coord(prog, rep, tier, scope=[f for f in prog.all_functions() if isinstance(f.node, _ast.FunctionDef)])
+        return CO.rule_coord(prog, rep, tier, anchors=anchors)
     run.__name__ = name
     return run
 
@@ -68,7 +81,7 @@ DET1_ACCEPTED = {
 }
 
 spec("C01", "Docstring round trip",
-     [TB.rule_table_style, N.rule_null2, named(CO.rule_coord, "rule_coord_docstring", anchors=("docstring_parsers.parse_docstring", "emit.docstring")),
+     [TB.rule_table_style, N.rule_null2, coord("rule_coord_docstring", "docstring_parsers.parse_docstring", "emit.docstring"),
       det3("docstring", "emit.docstring", "docstring_parsers.parse_docstring")],
      "Necessary conditions decided on the source: (TABLE-style) per docstring style, every section header / line marker the emitter writes contains a "
      "detection token of that style, none of a style detected earlier, and is a header the style's scanner splits on; ARG/RETURN token tables are subsets of "
@@ -101,7 +114,7 @@ spec("C03", "Function / method round trip",
 spec("C04", "argparse round trip",
      [named(O.rule_order, "rule_order_argparse", only=("emit.argparse_function",)), TB.rule_table_argparse,
       scoped(FA.rule_falsy, "falsy_argparse", "emit.argparse_function", "parse.argparse_ast"), scoped(FA.rule_stripset, "stripset_argparse", "emit.argparse_function", "parse.argparse_ast"),
-      named(CO.rule_coord, "rule_coord_defaults"), named(FW.rule_fwd, "rule_fwd", accepted=FWD_ACCEPTED), det3("argparse", "emit.argparse_function", "parse.argparse_ast")],
+      coord("rule_coord_defaults", "defaults_utils.extract_default", "defaults_utils.set_default_doc"), named(FW.rule_fwd, "rule_fwd", accepted=FWD_ACCEPTED), det3("argparse", "emit.argparse_function", "parse.argparse_ast")],
      "Necessary conditions: (ORDER) exactly one add_argument call per parameter, in order, carrying '--<key>'; (TABLE-argparse) every keyword by which the emitter "
      "carries IR information is read by the parser, the '--' prefix added is the prefix stripped, the recogniser predicates test both receiver and attribute the "
      "emitter builds, written action constants are understood. (COORD) no position measured on a transformed copy of the prose (strip / casefold / replace change lengths; also through a search helper given a normalising callable) is used to cut the original prose. (FWD) an option the caller was given (word_wrap, emit_default_doc, docstring_format, ...) is forwarded to every callee that has the same option with a default - directly, through a partial or a wrapper; the confirmed exceptions are listed with reasons (props.FWD_ACCEPTED) or lie on the live-object path. (DET-3, scoped) no function on this property's code path writes state that outlives the call (module globals/objects, function or class attributes, mutated mutable defaults, memoised mutable results): the conversion is not history-dependent.",
@@ -131,7 +144,7 @@ spec("C07", "Parsing faithful to Python's view",
 
 spec("C08", "Fixed point after one pass",
      [TB.rule_table_announce, scoped(FA.rule_falsy, "falsy_defaults", "defaults_utils.set_default_doc", "defaults_utils.extract_default", "emitter_utils.interpolate_defaults"),
-      named(CO.rule_coord, "rule_coord_defaults"), named(FW.rule_fwd, "rule_fwd", accepted=FWD_ACCEPTED), det3("all", "emit.docstring", "emit.class_", "emit.function", "emit.argparse_function", "parse.docstring", "parse.class_", "parse.function", "parse.argparse_ast"),
+      coord("rule_coord_defaults", "defaults_utils.extract_default", "defaults_utils.set_default_doc"), named(FW.rule_fwd, "rule_fwd", accepted=FWD_ACCEPTED), det3("all", "emit.docstring", "emit.class_", "emit.function", "emit.argparse_function", "parse.docstring", "parse.class_", "parse.function", "parse.argparse_ast"),
       C.rule_call_dispatch],
      "Necessary condition: (TABLE-announce b) each writer of the default sentence recognises its own sentence as 'already present' - either by calling the reader "
      "itself or by a substring of the written phrase - otherwise one more sentence is appended on every pass. (COORD) no position measured on a transformed copy of the prose (strip / casefold / replace change lengths; also through a search helper given a normalising callable) is used to cut the original prose. (FWD) an option the caller was given (word_wrap, emit_default_doc, docstring_format, ...) is forwarded to every callee that has the same option with a default - directly, through a partial or a wrapper; the confirmed exceptions are listed with reasons (props.FWD_ACCEPTED) or lie on the live-object path. (DET-3, scoped) no function on this property's code path writes state that outlives the call (module globals/objects, function or class attributes, mutated mutable defaults, memoised mutable results): the conversion is not history-dependent.",
@@ -215,7 +228,7 @@ spec("C16", "Bodies carried verbatim",
 
 spec("C17", "Defaults through prose",
      [TB.rule_table_announce, scoped(FA.rule_falsy, "falsy_defaults", "defaults_utils.set_default_doc", "defaults_utils.extract_default", "emitter_utils.interpolate_defaults"),
-      CO.rule_coord,
+      coord("rule_coord", "defaults_utils.extract_default", "defaults_utils.set_default_doc"),
       det3("defaults", "defaults_utils.set_default_doc", "defaults_utils.extract_default", "emitter_utils.interpolate_defaults")],
      "Necessary conditions: (COORD) in the reader and the writer of default sentences no position measured on a transformed copy of the prose (strip / casefold / "
      "replace change lengths; also through a search helper given a normalising callable) is used to cut the original prose, which is how 'removing the sentence leaves the "
@@ -226,7 +239,7 @@ spec("C17", "Defaults through prose",
      not_decided="the numeric/boolean coercion ladder, end-of-value scan, the arithmetic of the removal offsets themselves (character-level)")
 
 spec("C18", "Wrapping / line length transparent",
-     [T.rule_typeflow, T.rule_wrap_last, named(CO.rule_coord, "rule_coord_defaults"), det3("emit", "emit.docstring", "emit.class_", "emit.function", "emit.argparse_function")],
+     [T.rule_typeflow, T.rule_wrap_last, coord("rule_coord_defaults", "defaults_utils.extract_default", "defaults_utils.set_default_doc"), det3("emit", "emit.docstring", "emit.class_", "emit.function", "emit.argparse_function")],
      "Necessary conditions: (TYPEFLOW) the configured width read from the environment passes int()/float() before every numeric sink (width= of textwrap, comparison with "
      "len()); (WRAP-LAST) no reader of prose (default-sentence scanner) is applied to an already word-wrapped string. (COORD) no position measured on a transformed copy of the prose (strip / casefold / replace change lengths; also through a search helper given a normalising callable) is used to cut the original prose. (DET-3, scoped) no function on this property's code path writes state that outlives the call (module globals/objects, function or class attributes, mutated mutable defaults, memoised mutable results): the conversion is not history-dependent.",
      floors={"TYPEFLOW": 2, "WRAP-LAST": 5},
